@@ -3,5 +3,6 @@ pub mod server;
 pub mod idmath;
 pub mod rt;
 pub mod codec;
+pub mod sock;
 pub mod shapes;
 pub mod mostrecent;
